@@ -154,15 +154,14 @@ mut("c16-skip-equal", "C16", OS,
 mut("c04-lambda-cache", "C04", UA,
     '''        # Since this is a function in python, we can look for lambda capture.
         call_args = global_getclosurevars(ast_source)
-        return _resolve_called_lambdas().visit(_rewrite_captured_vars(call_args).visit(src_ast))''',
+        captured = _rewrite_captured_vars(call_args).visit(src_ast)''',
     '''        # Since this is a function in python, we can look for lambda capture.
         key = (ast_source.__code__.co_filename, ast_source.__code__.co_firstlineno, caller_name)
         if key in _parsed_cache:
             return copy.deepcopy(_parsed_cache[key])
         call_args = global_getclosurevars(ast_source)
-        r = _resolve_called_lambdas().visit(_rewrite_captured_vars(call_args).visit(src_ast))
-        _parsed_cache[key] = copy.deepcopy(r)
-        return r''',
+        captured = _rewrite_captured_vars(call_args).visit(src_ast)
+        _parsed_cache[key] = copy.deepcopy(captured)''',
     "parsed lambda cached by (file, line): the first captured values are frozen for later calls")
 mut("c04-scope-leak", "C04", UA,
     '''        self._ignore_stack.append([a.arg for a in node.args.args])
@@ -187,16 +186,12 @@ mut("c04-tuple-gate", "C04", UA,
     "g_legal_capture_types = (str, int, float, bool, complex, str, bytes, ModuleType, tuple)",
     "tuples pass the transportable-constant gate")
 mut("c04-live-cell", "C04", UA,
-    '''            elif not callable(v) and not isinstance(v, ModuleType):
-                # If it is something we know how to make into a literal, we just send it down
-                # like that.
-                return as_literal(v)''',
-    '''            elif not callable(v) and not isinstance(v, ModuleType):
-                # If it is something we know how to make into a literal, we just send it down
-                # like that.
-                if isinstance(v, float) and v == int(v):
-                    return as_literal(int(v))
-                return as_literal(v)''',
+    '''                # like that (as the object it is: an attribute may still be read off it).
+                return ast.Constant(value=v, kind=None)''',
+    '''                # like that (as the object it is: an attribute may still be read off it).
+                if isinstance(v, float) and v == v and abs(v) < 1e300 and v == int(v):
+                    return ast.Constant(value=int(v), kind=None)
+                return ast.Constant(value=v, kind=None)''',
     "whole-number floats are captured as ints (value survives, type does not: 40.0 -> 40)")
 # ---- C02 -------------------------------------------------------------------------------------
 mut("c02-no-reserve", "C02", FS,
